@@ -217,3 +217,29 @@ func VerifC01Point() {
 	}
 	zz.Reach("end")
 }
+
+// VerifC01LongLine: a batch of three points whose middle point carries a long string field
+// (the length is a parameter, 70000 bytes by default: beyond the 64 KiB token limit of a
+// default bufio.Scanner). Every point must come back, the long value intact, and the points
+// after it as well. Concrete execution of the real batch splitter and parser on one large
+// input: sizes are not something the solver varies here.
+func VerifC01LongLine() {
+	n := zz.ParamInt("long_bytes", 70000)
+	long := make([]byte, n)
+	for i := range long {
+		long[i] = 'a' + byte(i%26)
+	}
+	body := []byte("cpu,host=a v=1i 1700000000000000000\n")
+	body = append(body, []byte("logs,host=a msg=\"")...)
+	body = append(body, long...)
+	body = append(body, []byte("\" 1700000001000000000\n")...)
+	body = append(body, []byte("mem,host=a v=2i 1700000002000000000\n")...)
+	recs := NewLineProtocolParser().ParseBatchWithPrecision(body, "ns")
+	zz.Assert(len(recs) == 3, "a batch with one long line lost points")
+	if len(recs) == 3 {
+		zz.Assert(recs[0].Measurement == "cpu" && recs[1].Measurement == "logs" && recs[2].Measurement == "mem", "points out of order or renamed")
+		s, ok := recs[1].Fields["msg"].(string)
+		zz.Assert(ok && len(s) == n && s[0] == 'a' && s[n-1] == 'a'+byte((n-1)%26), "the long string value changed")
+	}
+	zz.Reach("end")
+}
